@@ -110,7 +110,8 @@ def empty_read(ctx):
 def cursor_defined(ctx):
     facts = ctx.facts
     loopfn = conn.parse_loop_fn(ctx)
-    fl, ll = leaves(ctx, loopfn)
+    # one extra turn of the loop: `while more { more = match state {..} }` leaves at the loop head, after the iteration that said "no more"
+    fl, ll = leaves(ctx, loopfn, unroll=True)
     n = 0
     for lf in ll:
         rk = ret_kind(lf)
